@@ -251,7 +251,12 @@ theorem stmt_correct : ∀ (fuel : Nat),
       | syscall id args =>
         simp only [okS, Bool.and_eq_true, decide_eq_true_eq, List.all_eq_true] at hok
         exact execS_syscall K exitJ wf _ id args σ hok.1 hok.2
-      | assignSub n i e => simp [okS] at hok
+      | assignSub n i e =>
+        simp only [okS, Bool.and_eq_true] at hok
+        have : optStmt (annotS K.ρ (.assignSub n i e)) = .assignSub n (optExpr (annotate K.ρ i)) (optExpr (annotate K.ρ e)) := by
+          simp [annotS, optStmt]
+        rw [this]
+        exact execS_assignSub K exitJ wf _ n i e σ hok.1 hok.2
       | call f args => simp [okS] at hok
     · intro ss σ hok
       cases ss with
